@@ -480,6 +480,15 @@ func (k Keeper) MakeConsumerGenesis(
 		// set the counterparty connection ID
 		counterpartyConnectionId = connectionEnd.Counterparty.ConnectionId
 
+		// a light client can be bound to at most one consumer: binding it a second time would overwrite the
+		// reverse index of the consumer that already uses it (and with it the attribution of its CCV channel)
+		if boundConsumerId, found := k.GetClientIdToConsumerId(ctx, clientId); found && boundConsumerId != consumerId {
+			return gen, errorsmod.Wrapf(types.ErrInvalidConsumerClient,
+				"client(%s) of connection(%s) is already bound to consumer(%s)",
+				clientId, initializationRecord.ConnectionId, boundConsumerId,
+			)
+		}
+
 		k.SetConsumerClientId(ctx, consumerId, clientId)
 
 		// Set minimum height for equivocation evidence from this consumer chain
